@@ -26,6 +26,39 @@ theorem C08_cut_line_not_read (s : S) (h : NoLF (pending s.w)) : ∃ e, (connRea
   simp only [] at he ⊢
   exact ⟨e, he⟩
 
+/-- **C08_cut_ends_loop.**  The command loop on a connection whose remaining input contains no line feed — the peer went away, or
+    stopped, in the middle of a command line: no line is read (no `cmd` event), no callback is made, nothing is executed; at most
+    one closing notice (500 for an over-long line, 421 for the idle timeout) is written, and the loop is over. -/
+theorem C08_cut_ends_loop (fuel : Nat) (s : S) (h : NoLF (pending s.w)) :
+    ∃ tl, (loop fuel s).evs = tl ++ s.evs ∧ ∀ e ∈ tl, ∃ bs, e = Spec.Ev.w bs := by
+  cases fuel with
+  | zero => exact ⟨[], rfl, by simp⟩
+  | succ fuel =>
+    unfold loop
+    split
+    · exact ⟨[], rfl, by simp⟩
+    · obtain ⟨e, he⟩ := C08_cut_line_not_read s h
+      have hevs : (connReadLine s).1.evs = s.evs := by
+        unfold connReadLine; rcases readLine s.w with ⟨w1, r⟩; rfl
+      have hcl : (connReadLine s).1.c = s.c := by
+        unfold connReadLine; rcases readLine s.w with ⟨w1, r⟩; rfl
+      rcases hr : connReadLine s with ⟨s1, r⟩
+      rw [hr] at he hevs hcl
+      simp only [] at he hevs hcl ⊢
+      subst he
+      have hw : ∀ (code : Nat) (enh : Spec.Enh) (text : String),
+          ∃ tl, (reply s1 code enh text).evs = tl ++ s.evs ∧ ∀ e ∈ tl, ∃ bs, e = Spec.Ev.w bs := by
+        intro code enh text
+        unfold reply write
+        split
+        · exact ⟨[], by simpa using hevs, by simp⟩
+        · exact ⟨[Spec.Ev.w (Reply.render code enh [text.b])], by simp [emit, hevs], by simp⟩
+      cases e with
+      | eof => exact ⟨[], hevs, by simp⟩
+      | closed => exact ⟨[], hevs, by simp⟩
+      | tooLong => exact hw _ _ _
+      | timeout => exact hw _ _ _
+
 -- a rest without line feed is an error …
 example : (match (readLine { buf := "BDAT 0 LAST".b, tail := .eof }).2 with | .error .eof => true | _ => false) = true := by decide +kernel
 example : (match (readLine { segs := ["MAIL FROM:<a@b> SI".b, "ZE=1".b], tail := .timeout }).2 with | .error .timeout => true | _ => false) = true := by decide +kernel
